@@ -114,8 +114,59 @@ func vC16ParseRaw(f []string) (vC16Req, bool) {
 	return q, true
 }
 
-// vC16Net: one configured entry -> (ip, mask) as net.ParseCIDR / net.ParseIP + full
-// mask give them; ok=false if it is neither.
+// vC16EntryTok: one configured entry (trimmed, non-empty) as the operator wrote it:
+// with a `/` it is a network, `<hex ip>/<hex mask>` of net.ParseCIDR; without, a single
+// address, `h<hex>` of net.ParseIP; `!` if the standard library cannot read it.
+func vC16EntryTok(p string) string {
+	hasSlash := false
+	for i := 0; i < len(p); i++ {
+		if p[i] == '/' {
+			hasSlash = true
+		}
+	}
+	if hasSlash {
+		_, n, err := net.ParseCIDR(p)
+		if err != nil {
+			return "!"
+		}
+		return vC16NetTok(n.IP, n.Mask)
+	}
+	ip := net.ParseIP(p)
+	if ip == nil {
+		return "!"
+	}
+	return "h" + hex.EncodeToString(ip)
+}
+
+// vC16CanonNet shows a network the way IPNet.Contains reads it: family, masked 16-byte
+// network address, prefix length; `?raw` if it has no such form.
+func vC16CanonNet(ip net.IP, m net.IPMask) string {
+	raw := "?" + vC16NetTok(ip, m)
+	a, fam := ip, "6"
+	if v4 := ip.To4(); v4 != nil {
+		a, fam = v4, "4"
+		if len(m) == net.IPv6len {
+			m = m[12:]
+		}
+	} else if len(ip) != net.IPv6len {
+		return raw
+	}
+	if len(m) != len(a) {
+		return raw
+	}
+	ones, bits := m.Size()
+	if bits == 0 {
+		return raw
+	}
+	masked := make(net.IP, len(a))
+	for i := range a {
+		masked[i] = a[i] & m[i]
+	}
+	return fam + ":" + hex.EncodeToString(masked.To16()) + "/" + strconv.Itoa(ones)
+}
+
+// vC16Net (generator only): the network a configured entry stands for — an entry without
+// prefix length is that one address; ok=false if it is neither.
 func vC16Net(s string) (net.IP, net.IPMask, bool) {
 	if strings.ContainsRune(s, '/') {
 		_, n, err := net.ParseCIDR(s)
@@ -146,12 +197,7 @@ func vC16ListTokens(s string) string {
 			sb.WriteString(" _")
 			continue
 		}
-		ip, m, ok := vC16Net(p)
-		if !ok {
-			sb.WriteString(" !")
-			continue
-		}
-		sb.WriteString(" " + vC16NetTok(ip, m))
+		sb.WriteString(" " + vC16EntryTok(p))
 	}
 	return sb.String()
 }
@@ -188,6 +234,10 @@ var vC16Entries = []string{
 	"2001:db8::/32", "2001:db8::1/128", "2001:db8::1", "2001:db8:1::/48", "fe80::/10", "::1", "::1/128",
 	"::ffff:10.0.0.0/104", "::ffff:1.2.3.4", "::ffff:0.0.0.0/96", "::ffff:192.168.0.0/112", "::/96", "::/1", "128.0.0.0/1",
 	"2001:DB8:0:0:0:0:0:1", "0:0:0:0:0:ffff:0a00:0001",
+	// single addresses of either family, in every spelling
+	"fe80::1", "fd00::1", "2001:db8:0:1::53", "::ffff:127.0.0.1", "10.0.0.1", "192.168.1.1", "::", "0.0.0.0",
+	"255.255.255.255", "ff02::1", "64:ff9b::a00:1", "::10.0.0.1",
+	"::ffff:10.0.0.1/128", "::ffff:10.0.0.0/120", "fe80::1/128", "fe80::/64", "2001:db8::1/127",
 }
 
 var vC16BadEntries = []string{"abc", "1.2.3.4/33", "1.2.3/8", "::/129", "10.0.0.0/8/8", "1.2.3.4:80", "01.2.3.4", "/", "1.2.3.4/", "fe80::1%eth0", "[::1]"}
@@ -207,6 +257,10 @@ func vC16GenList(r *vRand, allowBad bool) string {
 			// random IPv4 network
 			bits := r.intn(33)
 			e = fmt.Sprintf("%d.%d.%d.%d/%d", r.intn(256), r.intn(256), r.intn(256), r.intn(256), bits)
+		}
+		if r.chance(1, 6) {
+			// random single address, either family, any spelling
+			e = vC16Spell(r, vC16RandIP(r))
 		}
 		if allowBad && r.chance(1, 14) {
 			e = r.pick(vC16BadEntries)
@@ -242,6 +296,97 @@ func vC16Inside(r *vRand, ip net.IP, m net.IPMask) net.IP {
 	out := make(net.IP, len(base))
 	for i := range base {
 		out[i] = (base[i] & m[i]) | (byte(r.intn(256)) &^ m[i])
+	}
+	return out
+}
+
+func vC16FlipBit(ip net.IP, k int) net.IP {
+	out := append(net.IP{}, ip...)
+	if k >= 0 && k < 8*len(out) {
+		out[k/8] ^= byte(0x80 >> uint(k%8))
+	}
+	return out
+}
+
+// vC16Near returns addresses that a sloppy reading of the entry would take for members
+// although they are not (or the other way round): the sibling just outside the prefix,
+// the same address with one bit flipped at the usual prefix boundaries (what a wrong
+// prefix length, or a prefix length counted in the wrong family, would cover), the
+// ends of the network, and the look-alikes in the other address family.
+func vC16Near(r *vRand, ip net.IP, m net.IPMask) []net.IP {
+	a := ip
+	if v4 := ip.To4(); v4 != nil {
+		a = v4
+		if len(m) == net.IPv6len {
+			m = m[12:]
+		}
+	}
+	if len(a) != len(m) {
+		return nil
+	}
+	ones, bits := m.Size()
+	if bits == 0 {
+		return nil
+	}
+	var out []net.IP
+	add := func(x net.IP) { out = append(out, x) }
+	if ones > 0 {
+		add(vC16FlipBit(a, ones-1))
+		add(vC16FlipBit(a, r.intn(ones)))
+		for _, b := range []int{8, 16, 24, 32, 48, 64, 96, 104, 112, 120, bits - 8, bits - 2, bits - 1} {
+			if b >= 0 && b < ones && r.chance(1, 2) {
+				// differs at bit b only below the boundary: inside any reading that stops at b
+				x := vC16FlipBit(a, b)
+				if r.chance(1, 2) {
+					for i := b/8 + 1; i < len(x); i++ {
+						x[i] = byte(r.intn(256))
+					}
+				}
+				add(x)
+			}
+		}
+	}
+	if ones < bits {
+		add(vC16FlipBit(a, ones))
+		lo, hi := append(net.IP{}, a...), append(net.IP{}, a...)
+		for i := range a {
+			lo[i] &= m[i]
+			hi[i] |= ^m[i]
+		}
+		add(lo)
+		add(hi)
+	}
+	if len(a) == net.IPv4len {
+		// the same four bytes read as (the start of) an IPv6 address
+		x := make(net.IP, 16)
+		copy(x, a)
+		for i := 4; i < 16; i++ {
+			if r.chance(1, 3) {
+				x[i] = byte(r.intn(256))
+			}
+		}
+		add(x)
+		compat := make(net.IP, 16)
+		copy(compat[12:], a)
+		add(compat)
+		sixToFour := make(net.IP, 16)
+		sixToFour[0], sixToFour[1] = 0x20, 0x02
+		copy(sixToFour[2:], a)
+		add(sixToFour)
+		nat64 := net.ParseIP("64:ff9b::")
+		copy(nat64[12:], a)
+		add(nat64)
+	} else {
+		add(net.IP(append([]byte{}, a[:4]...)))
+		add(net.IP(append([]byte{}, a[12:]...)))
+		mapped := append(net.IP{}, a...)
+		copy(mapped[:12], []byte{0, 0, 0, 0, 0, 0, 0, 0, 0, 0, 0xff, 0xff})
+		add(mapped)
+	}
+	// a handful of them
+	for len(out) > 5 {
+		i := r.intn(len(out))
+		out = append(out[:i], out[i+1:]...)
 	}
 	return out
 }
@@ -371,37 +516,43 @@ func vC16HdrName(r *vRand, canonical string) string {
 
 type vC16World struct {
 	trusted, allowed, outside []net.IP
-	all                       []net.IP
+	// near-misses of the trusted entries / of the allow-list entries
+	nearTrusted, nearAllowed []net.IP
+	all                      []net.IP
 }
 
 func vC16NewWorld(r *vRand, trusted, allow string) *vC16World {
 	w := &vC16World{}
-	collect := func(list string, defaults []string) []net.IP {
-		var out []net.IP
+	collect := func(list string, defaults []string) (out, near []net.IP) {
 		n := 0
 		for _, p := range vC16SplitCommas(list) {
 			p = vC16Trim(p)
 			if ip, m, ok := vC16Net(p); ok {
 				n++
 				out = append(out, vC16Inside(r, ip, m), vC16Inside(r, ip, m))
+				near = append(near, vC16Near(r, ip, m)...)
 			}
 		}
 		if n == 0 {
 			for _, p := range defaults {
 				if ip, m, ok := vC16Net(p); ok {
 					out = append(out, vC16Inside(r, ip, m))
+					if nn := vC16Near(r, ip, m); len(nn) > 2 {
+						near = append(near, nn[:2]...)
+					}
 				}
 			}
 		}
-		return out
+		return out, near
 	}
 	// the defaults of the statement's world: private networks are trusted, 127.0.0.1 may read the statistics
-	w.trusted = collect(trusted, []string{"127.0.0.0/8", "10.0.0.0/8", "172.16.0.0/12", "192.168.0.0/16"})
-	w.allowed = collect(allow, []string{"127.0.0.1"})
+	w.trusted, w.nearTrusted = collect(trusted, []string{"127.0.0.0/8", "10.0.0.0/8", "172.16.0.0/12", "192.168.0.0/16"})
+	w.allowed, w.nearAllowed = collect(allow, []string{"127.0.0.1"})
 	for i := 0; i < 4; i++ {
 		w.outside = append(w.outside, vC16RandIP(r))
 	}
 	w.all = append(append(append([]net.IP{}, w.trusted...), w.allowed...), w.outside...)
+	w.all = append(append(w.all, w.nearTrusted...), w.nearAllowed...)
 	return w
 }
 
@@ -419,16 +570,92 @@ func (w *vC16World) hopText(r *vRand, from []net.IP) string {
 	return vC16Hop(r, vC16Spell(r, w.pick(r, from)))
 }
 
+// vC16PortHop writes a hop the way a proxy that records the socket address does:
+// with the port, IPv6 in brackets.
+func vC16PortHop(r *vRand, s string) string {
+	isV6 := strings.Contains(s, ":")
+	switch r.intn(5) {
+	case 0:
+		return s
+	case 1, 2:
+		if isV6 {
+			return fmt.Sprintf("[%s]:%d", s, 1+r.intn(65535))
+		}
+		return fmt.Sprintf("%s:%d", s, 1+r.intn(65535))
+	case 3:
+		if isV6 {
+			return fmt.Sprintf(" [%s]:%d ", s, 1+r.intn(65535))
+		}
+		return fmt.Sprintf("\t%s:%d", s, 1+r.intn(65535))
+	}
+	return vC16Hop(r, s)
+}
+
+// vC16GenChain: the situation the second half of the statement is about — a trusted
+// proxy (or a chain of them) appended the address it saw, in whatever notation, to what
+// the client sent along.
+func vC16GenChain(r *vRand, w *vC16World) vC16Req {
+	var q vC16Req
+	q.Remote = vC16Remote(r, w.pick(r, w.trusted))
+	if r.chance(1, 4) {
+		v := r.pick(vC16Garbage)
+		if v != "" || r.chance(1, 2) {
+			q.Hdrs = append(q.Hdrs, vC16Hdr{vC16HdrName(r, vC16RealIP), v})
+		}
+	}
+	var hops []string
+	for i, n := 0, r.intn(3); i < n; i++ { // what the client made up
+		from := w.allowed
+		if r.chance(1, 3) {
+			from = w.all
+		}
+		hops = append(hops, vC16Hop(r, vC16Spell(r, w.pick(r, from))))
+	}
+	clientFrom := w.outside
+	if len(w.nearTrusted) > 0 && r.chance(1, 3) {
+		clientFrom = w.nearTrusted
+	}
+	hops = append(hops, vC16PortHop(r, vC16Spell(r, clientFrom[r.intn(len(clientFrom))])))
+	for i, n := 0, r.intn(3); i < n; i++ { // further trusted proxies
+		if r.chance(1, 8) {
+			hops = append(hops, r.pick(vC16Garbage))
+			continue
+		}
+		hops = append(hops, vC16PortHop(r, vC16Spell(r, w.pick(r, w.trusted))))
+	}
+	name := vC16HdrName(r, vC16Forwarded)
+	if r.chance(1, 3) {
+		for _, h := range hops {
+			q.Hdrs = append(q.Hdrs, vC16Hdr{name, h})
+		}
+	} else {
+		sep := ","
+		if r.chance(2, 3) {
+			sep = ", "
+		}
+		q.Hdrs = append(q.Hdrs, vC16Hdr{name, strings.Join(hops, sep)})
+	}
+	return q
+}
+
 // vC16GenReq builds one request of one of the shapes the statement talks about.
 func vC16GenReq(r *vRand, w *vC16World) vC16Req {
 	var q vC16Req
-	shape := r.intn(10)
+	shape := r.intn(14)
 	var peerFrom []net.IP
+	forge := false
 	switch {
 	case shape < 3: // direct client, possibly forging headers
 		peerFrom = w.outside
-	case shape < 8: // behind a trusted proxy
+	case shape < 7: // behind a trusted proxy
 		peerFrom = w.trusted
+	case shape < 9: // direct client next door to a trusted proxy, forging headers
+		peerFrom = w.nearTrusted
+		forge = true
+	case shape == 9: // direct client next door to an address that may read the statistics
+		peerFrom = w.nearAllowed
+	case shape < 12:
+		return vC16GenChain(r, w)
 	default:
 		peerFrom = w.all
 	}
@@ -444,6 +671,9 @@ func vC16GenReq(r *vRand, w *vC16World) vC16Req {
 	}
 	// X-Forwarded-For lines
 	nf := r.intn(4)
+	if forge && nx == 0 && nf == 0 {
+		nx = 1
+	}
 	type line struct {
 		name, value string
 	}
@@ -458,6 +688,12 @@ func vC16GenReq(r *vRand, w *vC16World) vC16Req {
 			}
 		case 1:
 			v = vC16Hop(r, vC16Spell(r, w.pick(r, w.all)))
+		case 2, 3:
+			from := w.allowed
+			if !forge && r.chance(1, 2) {
+				from = w.nearAllowed
+			}
+			v = vC16Spell(r, w.pick(r, from))
 		default:
 			v = vC16Spell(r, w.pick(r, w.all))
 		}
@@ -508,6 +744,10 @@ var vC16Configs = [][2]string{
 	{"10.0.0.1/32, 2001:db8::1/128", "::ffff:10.0.0.0/104"},
 	{"::ffff:192.168.0.0/112", "192.168.0.0/16"},
 	{"1.2.3.4/32", "1.2.3.4"},
+	{"2001:db8::1", "::1"},
+	{"fe80::1, ::ffff:10.0.0.1, 2001:db8:0:1::53", "127.0.0.1, ::1, 2001:db8::1"},
+	{"10.0.0.1, 192.168.1.1", "::ffff:127.0.0.1, fd00::1"},
+	{"::1, 10.0.0.0/8", "2001:db8::1/128, 10.0.0.1"},
 }
 
 // vC16GenCases: `routes` lists the routes of this server (gated and open); `modes` the
@@ -604,9 +844,21 @@ func vC16Fixed(server string, routes []string) []vCase {
 		{"127.0.0.1:4711", nil},
 		{"127.0.0.1:4711", []vC16Hdr{x("8.8.8.8")}},
 		{"[::1]:4711", nil},
+		// next door to a single configured address
+		{"[2001:db8::1]:1234", []vC16Hdr{x("::1")}},
+		{"[2001:db8::2]:1234", []vC16Hdr{x("::1")}},
+		{"[2001:db8:ffff::1]:1234", []vC16Hdr{f("127.0.0.1")}},
+		{"[::2]:4711", nil},
+		{"[::1:0:0:1]:4711", nil},
+		{"[::ffff:10.0.0.1]:55", []vC16Hdr{x("::1")}},
+		{"10.0.0.2:55", []vC16Hdr{x("::1")}},
+		{"[a00:1::]:55", []vC16Hdr{x("::1")}},
+		{"10.0.0.1:55", []vC16Hdr{f("::1, [2002:db8::9]:51234")}},
+		{"10.0.0.1:55", []vC16Hdr{f("::1, [2002:db8::9]:51234, [2001:db8::1]:443")}},
 	}
 	var cases []vCase
-	for _, cfg := range [][2]string{{"", ""}, {"192.168.0.0/16", "127.0.0.1, 192.168.0.1, 192.168.1.1/24"}, {"192.168.1.2", "::1, 2002:db8::/32"}} {
+	for _, cfg := range [][2]string{{"", ""}, {"192.168.0.0/16", "127.0.0.1, 192.168.0.1, 192.168.1.1/24"}, {"192.168.1.2", "::1, 2002:db8::/32"},
+		{"2001:db8::1, 10.0.0.1", "::1, 127.0.0.1"}} {
 		ops := []string{vC16CfgOp("new", server, cfg[0], cfg[1])}
 		for _, q := range reqs {
 			req := vC16Req{Remote: q.remote, Hdrs: q.hdrs}
